@@ -430,7 +430,12 @@ func normalizeSetField(
 		if dup, found := duplicateSetting(cfgOld, cfgVal, name, opts.pathSep); found {
 			return raiseDuplicateKey(cfg, dup)
 		}
-		return mergeConfig(opts, cfgOld, cfgVal)
+		// folding is part of reading ONE input: it does not follow the merge policy
+		// of the call the input is given to
+		fold := *opts
+		fold.configValueHandling = cfgDefaultHandling
+		fold.fieldHandlingTree = nil
+		return mergeConfig(&fold, cfgOld, cfgVal)
 	default:
 		return raiseDuplicateKey(cfg, name)
 	}
